@@ -1,4 +1,331 @@
 import LasioModel.Basic
-/- Writer model (to be filled in) -/
-namespace Lasio
-end Lasio
+import LasioModel.Section
+import LasioModel.HeaderLine
+import LasioModel.Generated
+/-
+Model of the HEADER part of `lasio.writer.write` (writer.py:83-204, 328-445) and of its inverse through the
+reader: `parse_header_items_section` loop body + `SectionParser.metadata/params/curves/strip_brackets`
+(reader.py:715-746, 767-939).  `num()` is NOT applied here: the value of a re-read item is its raw text.
+
+A header value is seen by the writer only through `str(value)`, `not value`, `value != 0`, `value is None`.
+-/
+namespace Lasio.Wr
+
+/-! ## values -/
+
+/-- a header value as the writer sees it -/
+structure WVal where
+  text : Str       -- `str(value)`
+  falsy : Bool     -- `not value`
+  isZero : Bool    -- `value == 0`
+  isNone : Bool    -- `value is None`
+deriving DecidableEq, Repr
+
+/-- a `str` value -/
+def WVal.str (s : Str) : WVal := ⟨s, s.isEmpty, false, false⟩
+/-- `None` -/
+def WVal.none : WVal := ⟨"None".toList, true, false, true⟩
+/-- the integer `0` that `standardize_value` substitutes -/
+def WVal.intZero : WVal := ⟨['0'], true, true, false⟩
+/-- a number with its `str()` rendering (`not x` is `x == 0` for numbers; NaN is truthy and non-zero) -/
+def WVal.num (text : Str) (isZero : Bool) : WVal := ⟨text, isZero, isZero, false⟩
+
+/-- the flags of a Python object are consistent: `None` is falsy and `None != 0` -/
+def WVal.WF (v : WVal) : Prop := v.isNone = true → v.falsy = true ∧ v.isZero = false
+
+/-- `standardize_value(value, unit)` (writer.py:328-349) -/
+def standardizeValue (v : WVal) (unit : Str) : WVal :=
+  let v1 := if !unit.isEmpty && v.falsy && !v.isZero then WVal.intZero else v
+  if v1.isNone then WVal.str [] else v1
+
+/-! ## items, order tables -/
+
+structure WItem where
+  orig : Str        -- `original_mnemonic`
+  session : Str     -- `mnemonic`
+  unit : Str        -- `str(unit)`
+  value : WVal
+  descr : Str       -- `str(descr)`
+deriving DecidableEq, Repr
+
+inductive Order where
+  | valueDescr | descrValue
+deriving DecidableEq, Repr
+
+/-- the two order strings `get_formatter_function` / `SectionParser.metadata` understand -/
+def parseOrder (s : String) : Option Order :=
+  if s == "value:descr" then some .valueDescr
+  else if s == "descr:value" then some .descrValue
+  else none
+
+/-- `order_definitions[version]` as the rows of that version -/
+def versionRows (version : String) : List (String × String × String × List (String × List String)) :=
+  Generated.orderDefinitions.filter (·.1 == version)
+
+/-- `version in order_definitions` -/
+def versionPresent (version : String) : Bool := !(versionRows version).isEmpty
+
+/-- `order_definitions[version][section]` = (default order, [(order, mnemonics)]); `none` = KeyError -/
+def sectionOrders (version sect : String) : Option (String × List (String × List String)) :=
+  ((versionRows version).find? (·.2.1 == sect)).map fun r => (r.2.2.1, r.2.2.2)
+
+/-- the dict `orders` built by `orders[mnemonic] = order` over the rows in turn (a later row wins) -/
+def ordersGet (rows : List (String × List String)) (m : Str) : Option String :=
+  rows.foldl (fun acc r => if r.2.any (fun x => x.toList == m) then some r.1 else acc) none
+
+/-- `get_section_order_function(section, version)(mnemonic)`, and equally the `orders.get(name, default_order)`
+of `SectionParser` (the two pieces of source are the same code).  `keyError`: version or section absent from
+the table; `typeError`: the table holds a string that is neither "value:descr" nor "descr:value"
+(the formatter function is then `None`). -/
+def orderOf (version sect : String) (m : Str) : Except Err Order :=
+  match sectionOrders version sect with
+  | none => .error .keyError
+  | some (dflt, rows) =>
+    match parseOrder ((ordersGet rows m).getD dflt) with
+    | some o => .ok o
+    | none => .error .typeError
+
+def secKey : SecName → String
+  | .version => "Version" | .well => "Well" | .curves => "Curves" | .parameter => "Parameter" | .other => ""
+
+/-! ## formatting -/
+
+/-- the field written between unit and colon -/
+def rhsOf (o : Order) (it : WItem) : Str :=
+  match o with
+  | .valueDescr => it.value.text
+  | .descrValue => it.descr
+
+/-- the field written after the colon -/
+def lastOf (o : Order) (it : WItem) : Str :=
+  match o with
+  | .valueDescr => it.descr
+  | .descrValue => it.value.text
+
+structure Widths where
+  left : Nat
+  middle : Nat
+deriving DecidableEq, Repr
+
+/-- Python `max(list)` of naturals (only used on non-empty lists) -/
+def maxList (l : List Nat) : Nat := l.foldr max 0
+
+/-- `get_section_widths` (writer.py:422-445): the order is looked up by the ORIGINAL mnemonic.  For an empty
+section Python returns `None, None` and the formatter would fall back to 10 / 40; no line is formatted then. -/
+def sectionWidths (ord : Str → Order) (items : List WItem) : Widths :=
+  if items.isEmpty then ⟨10, 40⟩ else
+    ⟨maxList (items.map fun it => it.orig.length),
+     maxList (items.map fun it => it.unit.length + 1 + (rhsOf (ord it.orig) it).length)⟩
+
+/-- `get_formatter_function(order, left_width, middle_width)(item)` (writer.py:352-393):
+`"%s.%s : %s" % (orig.ljust(left), unit + " " * (middle - len(unit) - len(rhs)) + rhs, last)` -/
+def formatItem (o : Order) (W : Widths) (it : WItem) : Str :=
+  ljust W.left ' ' it.orig ++
+    '.' :: (it.unit ++ List.replicate (W.middle - it.unit.length - (rhsOf o it).length) ' ' ++ rhsOf o it ++
+      ' ' :: ':' :: ' ' :: lastOf o it)
+
+/-- the item lines of one section for a total order function -/
+def sectionLines (ord : Str → Order) (items : List WItem) : List Str :=
+  items.map fun it => formatItem (ord it.orig) (sectionWidths ord items) it
+
+/-- the item lines of one section as `write` produces them.  The order function is obtained first
+(KeyError for an unknown version even when the section is empty); an unusable order string fails at the
+first item it is needed for. -/
+def writeSection (version sect : String) (items : List WItem) : Except Err (List Str) :=
+  match sectionOrders version sect with
+  | none => .error .keyError
+  | some _ =>
+    if items.all (fun it => match orderOf version sect it.orig with | .ok _ => true | .error _ => false) then
+      .ok (sectionLines (fun m => match orderOf version sect m with | .ok o => o | .error _ => .valueDescr) items)
+    else .error .typeError
+
+/-- the loop `header_item.value = standardize_value(header_item.value, header_item.unit)` over ~Well / ~Parameter -/
+def standardizeItems (items : List WItem) : List WItem :=
+  items.map fun it => { it with value := standardizeValue it.value it.unit }
+
+/-! ## `SectionItems.set_item` on writer items (WRAP and VERS replacement) -/
+
+def wRenumber (tr : Bool) (test : Str) : List WItem → Nat → List WItem
+  | [], _ => []
+  | it :: rest, k =>
+    if cmpStr tr (useful it.orig) test then
+      { it with session := useful it.orig ++ ':' :: natToStr (k + 1) } :: wRenumber tr test rest (k + 1)
+    else it :: wRenumber tr test rest k
+
+/-- `assign_duplicate_suffixes(test)` -/
+def wAssignSuffixes (tr : Bool) (test : Str) (items : List WItem) : List WItem :=
+  if (items.filter fun it => cmpStr tr (useful it.orig) test).length > 1 then wRenumber tr test items 0 else items
+
+/-- `section[key] = HeaderItem(...)` / `section.KEY = HeaderItem(...)`: replace the first item whose SESSION
+mnemonic matches, else append; then re-suffix the group of the new item -/
+def wSetItem (tr : Bool) (key : Str) (it : WItem) (items : List WItem) : List WItem :=
+  match findFirst (fun x => cmpStr tr key x.session) items with
+  | some i => wAssignSuffixes tr (useful it.orig) (items.set i it)
+  | none => wAssignSuffixes tr (useful it.orig) (items ++ [it])
+
+def mkWItem (o u : Str) (v : WVal) (d : Str) : WItem := ⟨o, useful o, u, v, d⟩
+
+def wrapItem (w : Bool) : WItem :=
+  if w then mkWItem "WRAP".toList [] (.str "YES".toList) "Multiple lines per depth step".toList
+  else mkWItem "WRAP".toList [] (.str "NO".toList) "One line per depth step".toList
+
+/-- the VERS item substituted in the copy of ~Version; `none` = the `assert version in (1.2, 2, None)` fails
+(`version=None` is resolved by the caller to the VERS value, which must then be 1.2 or 2.0 to be in the model) -/
+def versItem (version : String) : Option WItem :=
+  if version == "1.2" then
+    some (mkWItem "VERS".toList [] (.num "1.2".toList false) "CWLS LOG ASCII STANDARD - VERSION 1.2".toList)
+  else if version == "2.0" then
+    some (mkWItem "VERS".toList [] (.num "2.0".toList false) "CWLS log ASCII Standard -VERSION 2.0".toList)
+  else none
+
+/-! ## `str.splitlines()` -/
+
+def isLineBreak (c : Char) : Bool :=
+  let n := c.toNat
+  n == 0x0A || n == 0x0B || n == 0x0C || n == 0x0D || n == 0x1C || n == 0x1D || n == 0x1E || n == 0x85 ||
+  n == 0x2028 || n == 0x2029
+
+/-- `str.splitlines()` with `acc` the current line reversed -/
+def splitlinesAux : Str → Str → List Str
+  | [], acc => if acc.isEmpty then [] else [acc.reverse]
+  | '\r' :: '\n' :: rest, acc => acc.reverse :: splitlinesAux rest []
+  | c :: rest, acc =>
+    if isLineBreak c then acc.reverse :: splitlinesAux rest [] else splitlinesAux rest (c :: acc)
+
+def splitlines (s : Str) : List Str := splitlinesAux s []
+
+/-! ## the header -/
+
+/-- the header part of a LASFile after `update_start_stop_step` / `update_units_from_index_curve` -/
+structure WLas where
+  version : List WItem
+  versionTr : Bool          -- `las.version.mnemonic_transforms`
+  well : List WItem
+  curves : List WItem
+  params : List WItem
+  other : Str
+deriving DecidableEq, Repr
+
+def titleLine (t : String) (w : Nat) : Str := ljust w '-' t.toList
+
+/-- lines written before the data section title, and the LASFile afterwards (WRAP replaced in ~Version,
+~Well / ~Parameter values standardised in place).
+`wrap = none`: `las.version["WRAP"]` must exist (KeyError otherwise). -/
+def headerLines (version : String) (wrap : Option Bool) (headerWidth : Nat) (las : WLas) :
+    Except Err (List Str × WLas) := do
+  let vsec ← match wrap with
+    | none =>
+      match findFirst (fun x => cmpStr las.versionTr x.session "WRAP".toList) las.version with
+      | some _ => pure las.version
+      | none => throw Err.keyError
+    | some w => pure (wSetItem las.versionTr "WRAP".toList (wrapItem w) las.version)
+  let vers ← match versItem version with
+    | some it => pure it
+    | none => throw Err.other
+  let vcopy := wSetItem las.versionTr "VERS".toList vers vsec
+  let lv ← writeSection version "Version" vcopy
+  let well := standardizeItems las.well
+  let lw ← writeSection version "Well" well
+  let lc ← writeSection version "Curves" las.curves
+  let params := standardizeItems las.params
+  let lp ← writeSection version "Parameter" params
+  let lines :=
+    titleLine "~Version " headerWidth :: lv ++
+    titleLine "~Well " headerWidth :: lw ++
+    titleLine "~Curve Information " headerWidth :: lc ++
+    titleLine "~Params " headerWidth :: lp ++
+    titleLine "~Other " headerWidth :: splitlines las.other
+  pure (lines, { las with version := vsec, well := well, params := params })
+
+/-! ## reading one line back -/
+
+inductive MCase where
+  | preserve | upper | lower
+deriving DecidableEq, Repr
+
+def caseMap : MCase → Str → Str
+  | .preserve, s => s
+  | .upper, s => upper s
+  | .lower, s => lower s
+
+/-- the test of `strip_brackets`: at least two characters, `[..]` or `(..)` -/
+def isBracketed (x : Str) : Bool :=
+  2 ≤ x.length &&
+    ((x.head? == some '[' && x.getLast? == some ']') || (x.head? == some '(' && x.getLast? == some ')'))
+
+/-- `SectionParser.strip_brackets` -/
+def stripBrackets (x : Str) : Str :=
+  let x := strip x
+  if isBracketed x then (x.drop 1).dropLast else x
+
+/-- `SectionParser.__init__` (reader.py:804-815) + `self.orders.get(name, self.default_order)` of `metadata`:
+`defs[self.version]` is evaluated for every title; an unknown title keeps "value:descr" and `{}`;
+a ~V/~W title whose section is missing from the table leaves `self.orders` unset (AttributeError). -/
+def readerOrderOf (version : String) (kind : SecName) (name : Str) : Except Err Order :=
+  if !versionPresent version then .error .keyError else
+  match kind with
+  | .other => .ok .valueDescr
+  | _ =>
+    match sectionOrders version (secKey kind) with
+    | none => .error .keyError
+    | some (dflt, rows) =>
+      match parseOrder ((ordersGet rows name).getD dflt) with
+      | some o => .ok o
+      | none => .error .typeError
+
+/-- a re-read item; `value` is the raw text (before `num`) -/
+structure RItem where
+  name : Str
+  unit : Str
+  value : Str
+  descr : Str
+deriving DecidableEq, Repr
+
+/-- `read_line(line, section_name=parser.section_name2)`, the case map, and the `SectionParser` constructor of
+the section kind (`metadata` for ~V/~W/unknown titles, `curves`, `params`).  `none` = an exception
+(no pattern matches; version absent from ORDER_DEFINITIONS). -/
+def readItem (version : String) (kind : SecName) (c : MCase) (line : Str) : Option RItem :=
+  if !versionPresent version then none else
+  match parseHeaderLine kind line with
+  | none => none
+  | some f =>
+    let name := caseMap c f.name
+    let unit := stripBrackets f.unit
+    match kind with
+    | .curves => some ⟨name, unit, f.value, f.descr⟩
+    | .parameter => some ⟨name, unit, f.value, f.descr⟩
+    | .other => some ⟨name, unit, f.value, f.descr⟩     -- default_order "value:descr", orders {}
+    | .version | .well =>
+      match readerOrderOf version kind name with
+      | .ok .valueDescr => some ⟨name, unit, f.value, f.descr⟩
+      | .ok .descrValue => some ⟨name, unit, f.descr, f.value⟩
+      | .error .keyError => none                          -- `self.orders` never set: AttributeError
+      | .error _ => some ⟨name, unit, [], []⟩             -- neither branch of `metadata` taken
+
+inductive LineRes where
+  | skip | stop | error | item (r : RItem)
+deriving DecidableEq, Repr
+
+/-- one iteration of the loop of `parse_header_items_section` (ignore_comments = ("#",), header errors raise) -/
+def readLine (version : String) (kind : SecName) (c : MCase) (raw : Str) : LineRes :=
+  let line := strip raw
+  match line with
+  | [] => .skip
+  | ch :: _ =>
+    if ch == '#' then .skip
+    else if ch == '~' then .stop
+    else match readItem version kind c line with
+      | some r => .item r
+      | none => .error
+
+/-- the items of the lines of one section (the title line excluded); `none` = an exception -/
+def readSection (version : String) (kind : SecName) (c : MCase) : List Str → Option (List RItem)
+  | [] => some []
+  | raw :: rest =>
+    match readLine version kind c raw with
+    | .skip => readSection version kind c rest
+    | .stop => some []
+    | .error => none
+    | .item r => (readSection version kind c rest).map (r :: ·)
+
+end Lasio.Wr
